@@ -313,6 +313,48 @@ def frag_batch(b, rng):
         batch_call(b, rng, "ack" if kind != "ack" else "nack", ids)
 
 
+def frag_batch_stale_retry(b, rng):
+    """a batch that contains ids that are stale in every way (operator-cancelled, superseded after expiry and re-dequeue,
+    settled by the other op, unknown) next to a valid one; then retries of exactly those ids, single and batch, inside the
+    idempotency window: none of them ever succeeded, so every retry must be a conflict again"""
+    b.tags.add("batch-stale-retry")
+    kind = rng.choice(["ack", "nack", "dead"])
+    m_cancel = b.enqueue()
+    k_cancel = b.dequeue(ttl=rng.choice([None, 600 * SEC]))
+    b.manage("cancel", [m_cancel])
+    if rng.random() < 0.5:
+        b.manage(rng.choice(["requeue", "resume"]), [m_cancel])
+        b.tick(MS)
+        b.dequeue()                                     # now leased to another worker under a new id
+    b.enqueue()
+    short = rng.choice([20 * MS, SEC])
+    k_old = b.dequeue(ttl=short)
+    b.tick(short + rng.choice([10 * MS, SEC]))
+    b.dequeue(ttl=600 * SEC)                            # superseded: same message, new lease id
+    b.enqueue()
+    k_other = b.dequeue()
+    lease_call(b, rng, "nack" if kind == "ack" else "ack", ref(k_other))      # settled by the other op
+    b.enqueue()
+    k_good = b.dequeue(ttl=600 * SEC)
+    stale = [ref(k_cancel), ref(k_old), ref(k_other), rawl("lease_x1")]
+    rng.shuffle(stale)
+    stale = stale[:rng.choice([2, 3, 4, 4])]
+    mix = list(stale)
+    mix.insert(rng.randrange(len(mix) + 1), ref(k_good))
+    batch_call(b, rng, kind, mix)
+    b.tick(rng.choice([0, 1, MS, SEC]))
+    for r in stale:
+        if rng.random() < 0.7:
+            lease_call(b, rng, kind, dict(r))
+    b.tick(rng.choice([0, 1, MS]))
+    batch_call(b, rng, kind, stale)
+    if rng.random() < 0.5:
+        batch_call(b, rng, kind, mix)
+    if rng.random() < 0.5:
+        b.tick(b.ttl)
+        batch_call(b, rng, kind, stale)
+
+
 def frag_batch_shape(b, rng):
     """requests normalizeLeaseIDs rejects, and the size limit"""
     b.tags.add("batch-shape")
@@ -389,11 +431,13 @@ def frag_clamps(b, rng):
     for _ in range(n):
         b.enqueue(route=rng.choice(["r0", "r0", "r1"]), target=rng.choice([None, None, "t1"]),
                   next_in=rng.choice([None, None, SEC, -SEC]))
-    for _ in range(rng.choice([1, 2, 3])):
-        batch = rng.choice([-1, 0, 1, 2, 3, 5, 100, 101, 150, 1000])
+    mb, mt, mw = b.pcfg["max_batch"], b.pcfg["max_ttl"], b.pcfg["max_wait"]
+    for _ in range(rng.choice([2, 3, 4])):
+        batch = rng.choice([-1, 0, 1, 2, 3, 5, 100, 101, 150, 1000] + ([mb, mb + 1, mb - 1, 2 * mb] if mb > 0 else []))
         b.dequeue(endpoint=rng.choice(["/e0", "/e0", "/e1"]), batch=batch,
-                  ttl=rng.choice([None, 0, -SEC, 1, SEC, 10 * SEC, 10 * SEC + 1, 3600 * SEC]),
-                  wait=rng.choice([None, None, 0, 100 * MS, 10 * SEC, -SEC]), expect=max(1, min(batch, n, 3)))
+                  ttl=rng.choice([None, 0, -SEC, 1, SEC, 10 * SEC, 10 * SEC + 1, 3600 * SEC] + ([mt, mt + 1, mt - 1, 2 * mt - 1, 2 * mt + 1] * 2 if mt > 0 else [])),
+                  wait=rng.choice([None, None, 0, 100 * MS, 10 * SEC, -SEC] + ([mw, mw + 1, mw - 1, 2 * mw] if mw > 0 else [])),
+                  expect=max(1, min(batch, n, 3)))
         b.tick(rng.choice([0, 1, SEC, 10 * MS]))
 
 
@@ -423,10 +467,21 @@ def prep_window(pcfg, rng):
             pcfg["recent_cap"] = 20000
 
 
+def prep_clamps(pcfg, rng):
+    if rng.random() < 0.8:
+        pcfg["max_batch"] = rng.choice([1, 2, 3, 50, 150])
+        pcfg["max_ttl"] = rng.choice([SEC, 10 * SEC, 60 * SEC])
+        pcfg["max_wait"] = rng.choice([500 * MS, 10 * SEC])
+        pcfg["default_wait"] = rng.choice([0, SEC, 20 * SEC])
+        pcfg["default_ttl"] = rng.choice([30 * SEC, 5 * SEC, 0, 90 * SEC])
+
+
 frag_capacity.prep = prep_capacity
+frag_clamps.prep = prep_clamps
 frag_dup_ack.prep = prep_window
 frag_nack_dup.prep = prep_window
 frag_clock.prep = prep_window
+frag_batch_stale_retry.prep = prep_window
 
 
 def lease_call(b, rng, kind, lease):
@@ -450,7 +505,7 @@ def batch_call(b, rng, kind, leases):
 
 
 FRAGS = [(frag_dup_ack, 16), (frag_released, 14), (frag_cancel_requeue, 12), (frag_nack_dup, 12), (frag_nack_dead, 6),
-         (frag_extend, 8), (frag_batch, 16), (frag_batch_shape, 5), (frag_raw, 4), (frag_capacity, 7), (frag_down, 4),
+         (frag_extend, 8), (frag_batch, 14), (frag_batch_stale_retry, 10), (frag_batch_shape, 5), (frag_raw, 4), (frag_capacity, 7), (frag_down, 4),
          (frag_clamps, 8), (frag_clock, 5)]
 
 
@@ -506,7 +561,7 @@ def for_transport(h, transport):
     for op in h["ops"]:
         op = dict(op)
         if op["op"] == "raw" and RAW[op["kind"]][0] != "RkUnknownEndpoint":
-            op = {"op": "nop", "now": op["now"], "cnow": op["cnow"]}
+            op = {"op": "nop", "kind": op["kind"], "now": op["now"], "cnow": op["cnow"]}
         if op["op"] == "dequeue" and op["batch"] < 0:
             op["batch"] = 0
         ops.append(op)
@@ -581,7 +636,8 @@ def coq_pcfg(mp, p, transport):
     t = "(mkPcfg %s %s %s %s %s %s %s %s %s)" % (
         copt(p["target"] or None, lambda x: cN(mp.target(x))), cZ(p["default_ttl"]), cZ(p["max_batch"]), cZ(p["max_lease_batch"]),
         cZ(p["max_ttl"]), cZ(p["default_wait"]), cZ(p["max_wait"]), cZ(p["recent_ttl"]), cZ(p["recent_cap"]))
-    return "(grpc_pcfg %s)" % t if transport == "grpc" else t
+    # grpc_pcfg is the identity when MaxLeaseBatch is positive (leaseBatchLimit): same term, evaluated once for both transports
+    return "(grpc_pcfg %s)" % t if (transport == "grpc" and p["max_lease_batch"] <= 0) else t
 
 
 def coq_case(mp, hist, out):
@@ -615,7 +671,7 @@ def coq_case(mp, hist, out):
         elif name == "down":
             call = "(PDown %s)" % C.coq_bool(op["down"])
         elif name == "nop":
-            call = "(PRaw RkBadJSON)"         # placeholder for a dropped call: no effect, response not compared
+            call = "(PRaw %s)" % RAW[op["kind"]][0]      # a dropped HTTP-only call: no effect in the model, response not compared
         else:
             raise ValueError(name)
         terms.append("(mkPop %s %s %s %s)" % (cZ(op["cnow"]), cZ(op["now"]), call, orc))
@@ -995,7 +1051,8 @@ def run_jobs(ctx, hbin, jobs):
 
 
 def run(ctx, info, rng, *_):
-    n = 44 if ctx.tier == "quick" else 900
+    t_start = ctx.wall()
+    n = 30 if ctx.tier == "quick" else 600
     hs = [gen_history(rng, only=f) for f, _ in FRAGS] + [gen_history(rng) for _ in range(n)]
     for d in load_corpus():
         hs.insert(0, d)
@@ -1028,6 +1085,8 @@ def run(ctx, info, rng, *_):
     nontrivial = set()
     op_hist, status_hist, tags = {}, {}, {}
     samples = []
+    corr_only = []           # disagreements with the model on traces on which the property predicate itself did not fail
+    corr_with_prop = []
     for (hi, ht, backend, transport), out, case, mp in zip(meta, outs, cases, maps):
         if case is None:
             continue
@@ -1038,17 +1097,10 @@ def run(ctx, info, rng, *_):
             if op["op"] in ("dequeue", "ack", "nack", "extend", "raw"):
                 k = "%s:%s" % (op["op"], st["status"] if transport == "http" else "grpc%d" % st["gcode"])
                 status_hist[k] = status_hist.get(k, 0) + 1
-        for t in ht.get("tags", []):
-            tags[t] = tags.get(t, 0) + 1
+        for tg in ht.get("tags", []):
+            tags[tg] = tags.get(tg, 0) + 1
         probs = judge_impl(ht, out, transport, stats)
-        seen = set()
-        for key, what, i, det in probs:
-            if key in seen:
-                continue
-            seen.add(key)
-            impl_fail += 1
-            C.report(ctx, key, what + " (%s store, %s transport, call %d: %s)" % (backend, transport, i, ht["ops"][i]["op"]),
-                     replay_obj(ht, out, backend, transport, i, what, det))
+        impl_fail += report_probs(ctx, probs, ht, out, backend, transport)
         dis = compare(ht, out, transport, mp, model, stats)
         if dis is None:
             validated += 1
@@ -1057,28 +1109,97 @@ def run(ctx, info, rng, *_):
                 samples.append({"backend": backend, "transport": transport, "pcfg": ht["pcfg"], "ops": ht["ops"][:5], "n_ops": len(ht["ops"])})
         else:
             mismatches += 1
-            i, comp, want, got = dis
-            opn = ht["ops"][i]["op"] if i < len(ht["ops"]) else "end"
-            if comp == "oracle":
-                C.report(ctx, "pull:dequeue-choice-rejected", "a dequeue through the pull layer returned something Model/Queue.v does not allow (number of items = min(clamped batch, ready), readiness, fresh lease ids)",
-                         replay_obj(ht, out, backend, transport, i, "dequeue result rejected by the model", {"returned": got}))
-            else:
-                C.report(ctx, "pull:corr:%s:%s" % (comp, opn),
-                         "Model/PullOps.v and the pull layer disagree on the %s after call %d (%s) on the %s store over %s%s" % (
-                             comp, i, opn, backend, transport, "" if probs else "; the property predicate itself did not fail on this trace"),
-                         dict(replay_obj(ht, out, backend, transport, i, "model/implementation disagreement: " + comp, {"model": want, "observed": got}),
-                              no_failing_input_found=not probs, model_log=logs[:1]))
+            (corr_with_prop if probs else corr_only).append((ht, out, backend, transport, dis))
+    # a disagreement without a property failure: look for a failing input around it (retries of the ids of the call at which
+    # model and implementation part, single and batch, under both ops) before reporting it as "no failing input found"
+    probe_found = 0
+    if corr_only:
+        pj, pm_ = [], []
+        for (ht, out, backend, transport, dis) in corr_only[:40]:
+            for hp in probes(ht, dis[0]):
+                pj.append({"backend": backend, "transport": transport, "history": {"cfg": hp["cfg"], "pcfg": hp["pcfg"], "ops": hp["ops"]}})
+                pm_.append((hp, backend, transport))
+        if pj:
+            for (hp, backend, transport), pout in zip(pm_, run_jobs(ctx, info["hbin"], pj)):
+                if pout.get("fatal"):
+                    continue
+                probe_found += report_probs(ctx, judge_impl(hp, pout, transport, dict(stats)), hp, pout, backend, transport, searched=True)
+    for (ht, out, backend, transport, dis), has_prop in [(x, True) for x in corr_with_prop] + [(x, False) for x in corr_only]:
+        i, comp, want, got = dis
+        opn = ht["ops"][i]["op"] if i < len(ht["ops"]) else "end"
+        if comp == "oracle":
+            C.report(ctx, "pull:dequeue-choice-rejected", "a dequeue through the pull layer returned something Model/Queue.v does not allow (number of items = min(clamped batch, ready), readiness, fresh lease ids)",
+                     replay_obj(ht, out, backend, transport, i, "dequeue result rejected by the model", {"returned": got}))
+        else:
+            C.report(ctx, "pull:corr:%s:%s" % (comp, opn),
+                     "Model/PullOps.v and the pull layer disagree on the %s after call %d (%s) on the %s store over %s%s" % (
+                         comp, i, opn, backend, transport, "" if has_prop else "; the property predicate itself did not fail on this trace"),
+                     dict(replay_obj(ht, out, backend, transport, i, "model/implementation disagreement: " + comp, {"model": want, "observed": got}),
+                          no_failing_input_found=not (has_prop or probe_found > 0), model_log=logs[:1],
+                          names="correspondence Model/PullOps.v pstep <-> internal/pullapi (ops.go, http.go) / internal/workerapi; theorems in Properties/C04pull.v rest on it"))
+    if ctx.tier == "thorough" and info.get("prop_ok"):
+        # independent re-check of the compiled theorem file of this part and everything it depends on
+        try:
+            rc, outc = C.run(["coqchk", "-silent", "-o", "-Q", C.COQ, "HK", "HK.Properties.C04pull"], cwd=C.COQ, timeout=3000)
+            m = re.search(r"\* Axioms:(.*?)\n\s*\n", outc, flags=re.S)
+            frag["pull_coqchk"] = {"rc": rc, "axioms": (m.group(1).strip() if m else outc[-400:])}
+            if rc != 0:
+                C.report(ctx, "pull:proof-broken", "coqchk rejects Properties/C04pull.v", {"kind": "obligation", "no_failing_input_found": True, "log": outc[-1500:]})
+        except Exception as e:
+            frag["pull_coqchk"] = {"rc": -1, "axioms": "not run: %r" % (e,)}
     frag.update({
         "pull_evaluations": len(todo), "pull_distinct_nontrivial": len(nontrivial), "pull_calls": steps,
         "pull_traces_validated_against_impl": validated, "pull_model_impl_mismatches": mismatches,
-        "pull_property_failures_on_impl_trace": impl_fail,
+        "pull_property_failures_on_impl_trace": impl_fail, "pull_failing_inputs_found_by_search_around_a_disagreement": probe_found,
         "pull_rule": "call sequences (scenario fragments of lib/c04pull.py + random calls), each run through the real pullapi.Server over HTTP and "
                      "the real workerapi.Server on the real memory and SQLite stores; a case (sequence, backend, transport) counts when status, body, "
                      "stored-state checksum and the recent-ops cache agree with Model/PullOps.v after every call",
         "pull_input_distribution": {"call_histogram": op_hist, "status_histogram": status_hist, "scenario_tags": tags, "judged": stats},
-        "pull_samples": samples,
+        "pull_samples": samples, "pull_wall_s": round(ctx.wall() - t_start, 1),
     })
     return frag
+
+
+def report_probs(ctx, probs, ht, out, backend, transport, searched=False):
+    seen = set()
+    n = 0
+    for key, what, i, det in probs:
+        if key in seen:
+            continue
+        seen.add(key)
+        n += 1
+        if searched:
+            det = dict(det, found_by="search around a model/implementation disagreement (retries of the ids of the disagreeing call)")
+        C.report(ctx, key, what + " (%s store, %s transport, call %d: %s)" % (backend, transport, i, ht["ops"][i]["op"]),
+                 replay_obj(ht, out, backend, transport, i, what, det))
+    return n
+
+
+def probes(ht, i):
+    """histories around a disagreement at call i: the prefix, then retries of every id the call at i presented - single and
+    batch, as ack and as nack, at once and one tick later"""
+    if i >= len(ht["ops"]):
+        return []
+    op = ht["ops"][i]
+    if op["op"] not in ("ack", "nack", "extend"):
+        return []
+    refs = ([op["lease"]] if op.get("lease") else []) + list(op.get("leases") or [])
+    refs = [r for r in refs if r.get("ref") or trim(r.get("raw") or "") != ""]
+    if not refs:
+        return []
+    base = copy.deepcopy(ht["ops"][:i + 1])
+    now, cnow = op["now"], op["cnow"]
+    outs = []
+    for dt in (0, MS):
+        ops = copy.deepcopy(base)
+        for name in ("ack", "nack"):
+            for r in refs:
+                ops.append({"op": name, "lease": dict(r), "leases": None, "dead": False, "reason": "", "delay": 0, "has_delay": False,
+                            "endpoint": "/e0", "now": now + dt, "cnow": cnow + dt})
+            ops.append({"op": name, "lease": None, "leases": copy.deepcopy(refs), "dead": False, "reason": "", "delay": 0, "has_delay": False,
+                        "endpoint": "/e0", "now": now + dt, "cnow": cnow + dt})
+        outs.append({"cfg": ht["cfg"], "pcfg": ht["pcfg"], "ops": ops, "tags": []})
+    return outs
 
 
 def replay_obj(ht, out, backend, transport, i, what, det):
